@@ -112,7 +112,7 @@ def judge(case, backends):
         got[be_tag] = (mxx, myy, mur, mui, m2)
         checks = [("XX", mxx, ref["XX"], bx), ("YY", myy, ref["YY"], by),
                   ("ReXY", mur, ref["XY"].real, bxy), ("ImXY", mui, ref["XY"].imag, bxy),
-                  ("M2", m2, ref["M2"], b4)]
+                  ("M2", m2, ref["M2"], tol.budget_m2(bxy if mode == "csd" else bx, ref["M2"], b4))]
         for name, a, b, bud in checks:
             err = abs(a - b)
             if not (err <= bud):
@@ -135,9 +135,13 @@ def judge(case, backends):
         viol.append(V("kernel_modified_its_input_record", order=order, mode=mode, L=L, K=K, backends=seq))
     conj_visible = mode == "csd" and abs(ref["XY"].imag) > 1e3 * bxy
     scatter_visible = K >= 2 and ref["M2"] > 1e3 * b4
+    if K >= 2 and ref["M2"] < 1e-12 * max(abs(ref["XY"]) ** 2, 1e-300) and abs(ref["XY"]) ** 2 > 1e3 * b4:
+        labels_extra = ["tiny-relative-scatter"]
+    else:
+        labels_extra = []
     trend_visible = order >= 1 and L > order + 1 and ref["XX"] > 1e3 * bx
     nontrivial = conj_visible or scatter_visible or trend_visible
-    labels = ["cell:%s,o=%d,%s" % (be, order, mode) for be in backends]
+    labels = ["cell:%s,o=%d,%s" % (be, order, mode) for be in backends] + labels_extra
     if conj_visible:
         labels.append("conj_visible")
     if scatter_visible:
@@ -225,7 +229,7 @@ def oracle_api(case):
         XY = complex(res.XY[j])
         for name, a, b, bud in (("XX", float(res.XX[j]), ref["XX"], bx), ("YY", float(res.YY[j]), ref["YY"], by),
                                 ("ReXY", XY.real, ref["XY"].real, bxy), ("ImXY", XY.imag, ref["XY"].imag, bxy),
-                                ("M2", float(res.M2[j]), ref["M2"], b4)):
+                                ("M2", float(res.M2[j]), ref["M2"], tol.budget_m2(bxy if mode == "csd" else bx, ref["M2"], b4))):
             if mode == "auto" and name == "ImXY":
                 b = 0.0
             if not (abs(a - b) <= bud):
